@@ -150,9 +150,9 @@ def _classify(h, data, stdout):
     o.time_s = res.get('duration_ms', 0) / 1000.0
     for c in data.get('cbmc', []):
         if c.get('harness_id') == h.fq:
-            st = c.get('cbmc_stats', {})
-            o.solver_time_s = float(st.get('runtime_symex_s', 0)) + float(st.get('runtime_decision_procedure_s', 0)) + \
-                float(st.get('runtime_convert_ssa_s', 0))
+            st = c.get('cbmc_stats') or {}
+            o.solver_time_s = sum(float(st.get(k) or 0) for k in
+                                  ('runtime_symex_s', 'runtime_decision_procedure_s', 'runtime_convert_ssa_s'))
     checks = res.get('checks', [])
     o.queries = 1
     failed, unwind_failed, undetermined, covers_sat, covers_unsat = [], [], [], [], []
@@ -175,6 +175,10 @@ def _classify(h, data, stdout):
     o.sample = {'covers_satisfied': covers_sat, 'covers_unsatisfiable': covers_unsat,
                 'checks_total': len(checks)}
     status = (res.get('status') or '').lower()
+    if status == 'timeout' or 'timed out' in str(res.get('error', '')).lower():
+        o.status = 'inconclusive'
+        o.detail = 'harness timeout'
+        return o
     if failed:
         o.status = 'violated'
         o.detail = '; '.join(failed[:4])
@@ -316,8 +320,8 @@ def run_property(prop, quick_timeout=420, thorough_timeout=2400):
         data, stdout, rc, wall = run_group(crate, group, jobs, timeout_s, max(mem_gb, 16), f'{prop}-{mem}')
         log(f'[{prop}] kani crate={crate} group={mem} harnesses={len(group)} jobs={jobs} wall={wall:.1f}s rc={rc}')
         if data is None:
-            tail = stdout[-1500:]
-            log(tail)
+            errs = re.findall(r'^error[^\n]*\n(?:[^\n]*\n){0,6}', stdout, re.M)
+            log('\n'.join(errs[:4]) if errs else stdout[-1500:])
         for h in group:
             o = _classify(h, data, stdout)
             if o.status == 'violated':
